@@ -270,23 +270,82 @@ impl<'a> Gen<'a> {
                 self.g(")");
             }
             _ => {
-                if self.allow_extended {
-                    self.extended = true;
-                    self.open("{");
-                    let n = self.new_name();
-                    binders.push(n.clone());
-                    self.t("x");
-                    self.t("=");
-                    self.t(&n);
-                    self.g(",");
-                    binders.push("y".into());
-                    self.t("y");
-                    self.t("}");
-                } else {
-                    self.t("_")
-                }
+                let mut fields = vec![];
+                self.record_pattern(d.saturating_sub(1), binders, &mut fields);
             }
         }
+    }
+
+    /// A record pattern with shorthand fields (`{ sa }` binds `sa`), renaming fields
+    /// (`{ fa = pat }` binds what `pat` binds, NOT `fa`) and nested patterns inside fields. The
+    /// field names come from pools that no other binder uses, so a renamed field's name is
+    /// never in scope by accident. `fields` receives the field names (to build a matching value).
+    fn record_pattern(&mut self, d: u32, binders: &mut Vec<String>, fields: &mut Vec<String>) {
+        const SHORT: &[&str] = &["sa", "sb", "sc"];
+        const RENAMED: &[&str] = &["fa", "fb", "width", "height"];
+        self.open("{");
+        let n = 1 + self.rng.below(3) as usize;
+        let mut used: Vec<&str> = vec![];
+        for i in 0..n {
+            if i > 0 {
+                self.g(",");
+            }
+            if self.rng.chance(2, 5) {
+                let f = SHORT[(i + self.rng.below(3) as usize) % SHORT.len()];
+                if used.contains(&f) || binders.iter().any(|b| b == f) || self.scope.iter().any(|b| b == f) {
+                    // fall through to a renaming field below
+                } else {
+                    used.push(f);
+                    fields.push(f.to_string());
+                    binders.push(f.to_string());
+                    self.t(f);
+                    continue;
+                }
+            }
+            let mut f = RENAMED[(i + self.rng.below(4) as usize) % RENAMED.len()];
+            if used.contains(&f) {
+                f = match RENAMED.iter().find(|x| !used.contains(*x)) {
+                    Some(x) => x,
+                    None => break,
+                };
+            }
+            used.push(f);
+            fields.push(f.to_string());
+            self.t(f);
+            self.t("=");
+            if d > 0 && self.rng.chance(1, 3) {
+                // nested pattern inside the field
+                if self.rng.chance(1, 2) {
+                    self.open("(");
+                    self.pattern(0, binders);
+                    self.g(",");
+                    self.pattern(0, binders);
+                    self.g(")");
+                } else {
+                    let mut inner = vec![];
+                    self.record_pattern(d - 1, binders, &mut inner);
+                }
+            } else {
+                let n = self.new_name();
+                binders.push(n.clone());
+                self.t(&n);
+            }
+        }
+        self.t("}");
+    }
+
+    /// a record value with the given fields
+    fn record_value(&mut self, fields: &[String]) {
+        self.open("{");
+        for (i, f) in fields.iter().enumerate() {
+            if i > 0 {
+                self.g(",");
+            }
+            self.t(f);
+            self.t("=");
+            self.atom();
+        }
+        self.t("}");
     }
 
     pub fn expr(&mut self, d: u32) {
@@ -365,6 +424,7 @@ impl<'a> Gen<'a> {
         let mut binders = vec![];
         let annotated = self.allow_extended && self.rng.chance(1, 10);
         let is_fn = self.rng.chance(2, 5) || rec_kw;
+        let mut record_let = false;
         if is_fn {
             let f = self.new_name();
             self.t(&f);
@@ -381,20 +441,29 @@ impl<'a> Gen<'a> {
             self.expr(d - 1);
             self.scope.truncate(inner);
         } else {
-            if self.rng.chance(1, 3) {
+            if self.rng.chance(1, 4) {
+                // `let { fa = w, sb } = { fa = 1, sb = 2 }`
+                let mut fields = vec![];
+                self.record_pattern(1, &mut binders, &mut fields);
+                self.t("=");
+                self.record_value(&fields);
+                record_let = true;
+            } else if self.rng.chance(1, 3) {
                 self.pattern(2, &mut binders);
             } else {
                 let n = self.new_name();
                 binders.push(n.clone());
                 self.t(&n);
             }
-            if annotated {
-                self.extended = true;
-                self.t(":");
-                self.t("Int");
+            if !record_let {
+                if annotated {
+                    self.extended = true;
+                    self.t(":");
+                    self.t("Int");
+                }
+                self.t("=");
+                self.expr(d - 1);
             }
-            self.t("=");
-            self.expr(d - 1);
         }
         self.scope.extend(binders);
         if self.rng.chance(1, 4) && self.indent == 0 {
